@@ -19,9 +19,9 @@ type KeyState struct {
 	Z        map[string]float64 `json:"z,omitempty"`
 	Deadline int64              `json:"deadline"` // unix ms, 0 none, -2 absent
 	// DeadlineAlt (expected states only): a second admissible deadline, see Entry.DeadlineAlt.
-	DeadlineAlt int64 `json:"deadline_alt,omitempty"`
-	Note     string             `json:"note,omitempty"`
-	Hidden   int                `json:"hidden,omitempty"` // sorted-set members not returned by a full score range (NaN scores)
+	DeadlineAlt int64  `json:"deadline_alt,omitempty"`
+	Note        string `json:"note,omitempty"`
+	Hidden      int    `json:"hidden,omitempty"` // sorted-set members not returned by a full score range (NaN scores)
 }
 
 // Doer runs one command and returns the parsed reply plus a panic text (empty if none).
